@@ -6,3 +6,106 @@ pub use crate::core::{
     TagState, VerifPpResult as PpResult,
 };
 pub use crate::fs::{AbsPath, GetLineEnding, Shell, TxtppPath};
+
+pub mod sched {
+    //! Schedule hooks: the coordinator and the worker closures report to (and can be paused by)
+    //! a controller installed by the harness in the thread that calls `Txtpp::run`.
+    //! With no controller installed every hook is a no-op.
+    use std::cell::RefCell;
+    use std::sync::atomic::{AtomicU64, Ordering};
+    use std::sync::Arc;
+
+    #[derive(Debug, Clone, PartialEq, Eq)]
+    pub enum TaskKind {
+        Scan,
+        Pp { first: bool },
+    }
+
+    pub trait Controller: Send + Sync {
+        /// coordinator thread: a task was handed to the thread pool
+        fn spawned(&self, id: u64, kind: TaskKind, path: String);
+        /// worker thread: the task starts running
+        fn begin(&self, id: u64);
+        /// worker thread: the result is computed and about to be sent (may block)
+        fn before_send(&self, id: u64, ok: bool);
+        /// worker thread: the result has been sent
+        fn sent(&self, id: u64);
+        /// coordinator thread: top of the receive loop (may block)
+        fn main_yield(&self);
+        /// coordinator thread: a result was received
+        fn received(&self);
+        /// coordinator thread: `run_internal` returned
+        fn finished(&self, ok: bool);
+    }
+
+    thread_local! {
+        static CTRL: RefCell<Option<Arc<dyn Controller>>> = const { RefCell::new(None) };
+    }
+    static NEXT: AtomicU64 = AtomicU64::new(1);
+
+    pub fn install(c: Option<Arc<dyn Controller>>) {
+        CTRL.with(|x| *x.borrow_mut() = c);
+    }
+    fn current() -> Option<Arc<dyn Controller>> {
+        CTRL.with(|x| x.borrow().clone())
+    }
+
+    pub fn main_yield() {
+        if let Some(c) = current() {
+            c.main_yield();
+        }
+    }
+    pub fn received() {
+        if let Some(c) = current() {
+            c.received();
+        }
+    }
+    pub fn finished(ok: bool) {
+        if let Some(c) = current() {
+            c.finished(ok);
+        }
+    }
+    pub fn spawned(kind: TaskKind, path: String) -> Spawned {
+        let c = current();
+        let id = NEXT.fetch_add(1, Ordering::SeqCst);
+        if let Some(c) = &c {
+            c.spawned(id, kind, path);
+        }
+        Spawned { id, c }
+    }
+
+    pub struct Spawned {
+        id: u64,
+        c: Option<Arc<dyn Controller>>,
+    }
+    impl Spawned {
+        pub fn begin(self) -> TaskGuard {
+            if let Some(c) = &self.c {
+                c.begin(self.id);
+            }
+            TaskGuard {
+                id: self.id,
+                c: self.c,
+            }
+        }
+    }
+    /// Dropped at the end of the worker closure, i.e. after the result was sent
+    pub struct TaskGuard {
+        id: u64,
+        c: Option<Arc<dyn Controller>>,
+    }
+    impl TaskGuard {
+        pub fn before_send(&self, ok: bool) {
+            if let Some(c) = &self.c {
+                c.before_send(self.id, ok);
+            }
+        }
+    }
+    impl Drop for TaskGuard {
+        fn drop(&mut self) {
+            if let Some(c) = &self.c {
+                c.sent(self.id);
+            }
+        }
+    }
+}
